@@ -123,9 +123,11 @@ Lemma stopped_time_excluded_running tbl cfg s dt :
              time_taken s' = time_taken s /\ rem (k_isl (ck s')) = rem (k_isl (ck s)).
 Proof.
   intros Hp Ho. unfold owned_paused in Ho. rewrite Hp in Ho.
-  apply andb_prop in Ho as [H1 H2]. eexists. split; [reflexivity|].
-  unfold time_taken. cbn [with_lsl with_ck mk ck ph clocks_tick k_sw k_isl].
-  rewrite (tick_paused_stopwatch _ _ H1), (tick_paused_sleep _ _ H2). repeat split.
+  apply andb_prop in Ho as [H1 H2].
+  unfold ustep. cbn [annotate ucore]. rewrite Hp. cbn [is_terminating].
+  eexists. split; [reflexivity|].
+  unfold time_taken. cbn [with_lsl with_ck mk ck ph unit_tick k_sw k_isl].
+  rewrite (tick_paused_stopwatch _ _ H1), (tick_paused_sleep _ _ H2). repeat split. exact Hp.
 Qed.
 
 Lemma stopped_time_excluded_terminating tbl cfg s x dt :
@@ -135,9 +137,10 @@ Lemma stopped_time_excluded_terminating tbl cfg s x dt :
 Proof.
   intros Hp Ho. unfold owned_paused in Ho. rewrite Hp in Ho.
   apply andb_prop in Ho as [H12 H3]. apply andb_prop in H12 as [H1 H2].
+  unfold ustep. cbn [annotate ucore]. rewrite Hp. cbn [is_terminating].
   eexists. split; [reflexivity|].
-  unfold time_taken. cbn [with_lsl with_ck mk ck ph clocks_tick k_sw k_gsl].
-  rewrite (tick_paused_stopwatch _ _ H1), (tick_paused_sleep _ _ H2). repeat split.
+  unfold time_taken. cbn [with_lsl with_ck mk ck ph unit_tick k_sw k_gsl].
+  rewrite (tick_paused_stopwatch _ _ H1), (tick_paused_sleep _ _ H2). repeat split. exact Hp.
 Qed.
 
 (* stopwatch as coded vs the abstract one *)
@@ -340,7 +343,7 @@ Proof.
     unfold ustep in H. cbn [annotate ucore] in H. injection H as <-. cbn [fst tick_amount].
     destruct Hinv as (H1 & H2 & H3 & H4).
     unfold dl_inv, rem_isl, past_timeout in *.
-    cbn [with_lsl with_ck mk hits ck timed_out ph clocks_tick k_isl].
+    cbn [with_lsl with_ck mk hits ck timed_out ph unit_tick k_isl].
     assert (Hrem : rem (slc_tick dt (k_isl (ck s))) <= rem (k_isl (ck s)) /\
                    rem (k_isl (ck s)) <= rem (slc_tick dt (k_isl (ck s))) + dt).
     { unfold slc_tick. destruct (lpaused (k_isl (ck s))); cbn [rem]; lia. }
